@@ -618,7 +618,7 @@ Proof.
   - apply ser_bytes. apply Forall_app. split; [now apply enc_str_bytes|].
     apply Forall_app. split; [now apply enc_str_bytes|].
     unfold enc_entries. apply Forall_forall. intros f Hin. apply in_map_iff in Hin as (kv & <- & Hkv).
-    cbn. apply ser_bytes, enc_strs_bytes. rewrite Forall_forall in Hmd. destruct (Hmd kv Hkv) as [[_ ?] [_ ?]].
+    cbn [snd enc_msg]. apply ser_bytes, enc_strs_bytes. rewrite Forall_forall in Hmd. destruct (Hmd kv Hkv) as [[_ ?] [_ ?]].
     repeat constructor; assumption.
   - intros Hsz. unfold dec_error_info. rewrite !fold_res_app.
     assert (E1 : fold_res merge_error_info (enc_str tag_ErrorInfo_reason r) (mkErrorInfo [] [] []) = Ok (mkErrorInfo r [] [])).
